@@ -17,7 +17,7 @@ const (
 	TStrList
 	TIntSet // only as constants / bindings
 	TStrSet
-	TAny // ill-typed workloads only
+	TAny    // ill-typed workloads only
 	TRawInt // a Go `int` (not int64): what a carelessly written user operator or constant table yields
 )
 
